@@ -205,6 +205,57 @@ def run(prop, tier):
             if cur and not prev and viol is None:
                 viol = {"what": "raising the threshold to %d dB turned an inactive window active" % T, "width": w, "channels": chans, "use_channel": uc}
             prev = cur
+    # the decision is a function of the window's bytes alone: the same bytes held in another bytes-like object (bytearray, memoryview,
+    # array.array or numpy array of the sample type), or in one buffer that a caller refills in place between calls on the same
+    # validator (a readinto() loop), give the decision of a fresh validator on a fresh bytes object
+    import array as _array
+    import numpy as _np
+    tcode = {1: "b", 2: "h", 4: "i"}
+    ndt = {1: _np.int8, 2: _np.int16, 4: _np.int32}
+    for _ in range(60 if quick else 600):
+        w = r.choice([1, 2, 4]); ch = r.choice([1, 2, 3]); n = r.randint(2, 40)
+        uc = r.choice([None, "mix", 0, -1, "any"])
+        T = r.choice([50, 40, 30, 20])
+        wins = []
+        for k in range(r.randint(3, 9)):
+            kind = r.random()
+            if kind < 0.4:
+                smp = [0] * (n * ch)
+            elif kind < 0.7:
+                a = min(lim[w], 20000 if w > 1 else 120)
+                smp = [a if i % 2 else -a for i in range(n * ch)]
+            else:
+                # silent first half, loud second half: a decision taken on a prefix of the window is wrong
+                a = min(lim[w], 3000 if w > 1 else 100)
+                smp = [0] * ((n // 2) * ch) + [a if i % 2 else -a for i in range((n - n // 2) * ch)]
+            wins.append(smp)
+        ref_dec = [bool(AudioEnergyValidator(T, w, ch, use_channel=uc).is_valid(pack(smp, w))) for smp in wins]
+        shared = {"b": AudioEnergyValidator(T, w, ch, use_channel=uc), "m": AudioEnergyValidator(T, w, ch, use_channel=uc)}
+        buf = bytearray(n * ch * w)
+        mv = memoryview(buf)
+        for k, smp in enumerate(wins):
+            raw = pack(smp, w)
+            forms = [("bytearray", bytearray(raw)), ("memoryview", memoryview(raw)), ("array.array(%r)" % tcode[w], _array.array(tcode[w], smp) if _array.array(tcode[w]).itemsize == w else None),
+                     ("numpy %s array" % ndt[w].__name__, _np.array(smp, dtype=ndt[w])), ("memoryview of a numpy array", memoryview(_np.array(smp, dtype=ndt[w])))]
+            for nm, obj in forms:
+                if obj is None:
+                    continue
+                try:
+                    got = bool(AudioEnergyValidator(T, w, ch, use_channel=uc).is_valid(obj))
+                except Exception as e:
+                    got = "raised %s" % type(e).__name__
+                mono_checked += 1
+                if viol is None and got != ref_dec[k]:
+                    viol = {"what": "the window judged %s as bytes is judged %r when the same bytes are given as %s" % ("active" if ref_dec[k] else "inactive", got, nm),
+                            "width": w, "channels_interleaved_samples": smp, "n_channels": ch, "threshold_dB": T, "use_channel": uc}
+            buf[:] = raw                       # refilled in place: the same object as in the previous call
+            for key, nm, obj in (("b", "a bytearray refilled in place between calls on the same validator", buf), ("m", "a memoryview of a buffer refilled in place", mv)):
+                got = bool(shared[key].is_valid(obj))
+                mono_checked += 1
+                if viol is None and got != ref_dec[k]:
+                    viol = {"what": "window %d of a sequence, judged %s by a fresh validator on fresh bytes, is judged %s when passed as %s (decisions so far depend on earlier calls)" % (
+                        k, "active" if ref_dec[k] else "inactive", "active" if got else "inactive", nm),
+                            "width": w, "n_channels": ch, "threshold_dB": T, "use_channel": uc, "windows_interleaved_samples": wins[:k + 1], "fresh_decisions": ref_dec[:k + 1]}
     # the same decision as split() applies it: with the threshold and channel selection given to split() (long or short
     # spelling, thresholds 0 and below included), the regions are the segmentation of exactly the windows the rule declares active
     from . import split as SP
